@@ -13,7 +13,7 @@ from xknx.secure.data_secure import DataSecure
 from xknx.telegram import GroupAddress, IndividualAddress, Telegram
 from xknx.telegram.apci import GroupValueWrite, SecureAPDU
 
-from ..dsecure import Receiver, secure_frame
+from ..dsecure import SCF_ENC, Receiver, encode_ldata, secure_frame
 from ..runner import Ctx, Part, exc_sig
 
 TITLE = "Data Secure sequence freshness"
@@ -24,14 +24,25 @@ GOOD_APDU = bytes.fromhex("008007")          # GroupValueWrite 7
 BAD_APDU = bytes.fromhex("03d70535")         # truncated A_PropertyValue_Write: authentic but malformed
 
 
+# forged-*: frames an attacker without the key can build - a flipped MAC, a frame with NO secured APDU at all (counter + 4 octets, the
+# shortest the parser accepts), an authentication-only frame with a wrong MAC, a genuine frame cut short by one octet
+KINDS = ("genuine", "forged-mac", "authentic-malformed", "forged-no-apdu", "forged-authentication-only", "forged-cut-short")
+
+
 def event_list(maxc: int) -> list[tuple[int, int, str]]:
-    return [(s, c, k) for s in (S1, S2, UNKNOWN) for c in range(0, maxc + 1) for k in ("genuine", "forged-mac", "authentic-malformed")]
+    return [(s, c, k) for s in (S1, S2, UNKNOWN) for c in range(0, maxc + 1) for k in KINDS]
 
 
 def frame_for(ev: tuple[int, int, str]) -> bytes:
     sender, counter, kind = ev
-    raw = secure_frame(KEY, sender, GA, counter, BAD_APDU if kind == "authentic-malformed" else GOOD_APDU)
-    if kind == "forged-mac":
+    if kind == "forged-no-apdu":
+        sec_apdu = bytes((0x03, 0xF1, SCF_ENC)) + counter.to_bytes(6, "big") + b"\xde\xad\xbe\xef"
+        return encode_ldata(0x29, priority=3, repeat_on_error=False, system_broadcast=False, ack=False, confirm_error=False, hop_count=6, dst_is_group=True, src=sender, dst=GA, tpci_octet=0, apdu=sec_apdu)
+    if kind == "forged-cut-short":
+        full = secure_frame(KEY, sender, GA, counter, GOOD_APDU + b"\x01")
+        return full[:6] + bytes((full[6] - 1,)) + full[7:-5] + full[-4:]      # one ciphertext octet removed, length octet adjusted
+    raw = secure_frame(KEY, sender, GA, counter, BAD_APDU if kind == "authentic-malformed" else GOOD_APDU, encrypt=kind != "forged-authentication-only")
+    if kind in ("forged-mac", "forged-authentication-only"):
         raw = raw[:-1] + bytes((raw[-1] ^ 0x01,))
     return raw
 
